@@ -133,7 +133,9 @@ def check_match_shape(cx, t, fn, sites, rep):
             check_dominance(cx, fn, bs, e, rep, fname)
         else:
             # constant body is only allowed when no variant arm exists (empty enum)
-            guard_ok = any(c['k'] == 'if' and 'is_empty' in es(c['cond']) and c['pol'] for c in bs.ctx)
+            from ..emptiness import empty_evidence
+            from ..facts import Facts as _F
+            guard_ok = empty_evidence(_F(cx).atoms(bs.ctx, cx.fw(fn)))
             if guard_ok:
                 rep.ok('DISCR-MATCH', '%s|empty-enum-constant' % where)
             else:
